@@ -56,6 +56,11 @@ func newDisjunctionSearcher(indexReader search.Reader,
 		rv, err := optimizeCompositeSearcher("disjunction:unadorned",
 			indexReader, qsearchers, options)
 		if err != nil || rv != nil {
+			// the replacement must still report the minimum asked for, or an
+			// enclosing boolean searcher takes the should clauses as optional
+			if ts, ok := rv.(*TermSearcher); ok && ts != nil {
+				ts.min = min
+			}
 			return rv, err
 		}
 	}
